@@ -107,6 +107,39 @@ func rulePushdownGuarded(c *Ctx) {
 		return true
 	})
 
+	// the same for a named function or method used as the guard
+	fnGuards := map[*Func]bool{}
+	fnGuard := func(cx *ast.CallExpr) bool {
+		fn := c.P.Funcs[CalleeName(s.Info, cx)]
+		if fn == nil || fn.Decl.Body == nil || fn.Decl.Type.Results == nil || len(fn.Decl.Type.Results.List) != 1 {
+			return false
+		}
+		if v, ok := fnGuards[fn]; ok {
+			return v
+		}
+		fnGuards[fn] = false
+		finfo := fn.Pkg.TypesInfo
+		if !mentionsField(finfo, fn.Decl.Body, fld) {
+			return false
+		}
+		fs := c.P.ScopeOf(fn)
+		r := fs.Run(Query{
+			Target: func(sub, top ast.Node) bool {
+				rs, ok := sub.(*ast.ReturnStmt)
+				if !ok || len(rs.Results) != 1 {
+					return ok
+				}
+				tv := finfo.Types[rs.Results[0]]
+				return !(tv.Value != nil && tv.Value.Kind() == constant.Bool && constant.BoolVal(tv.Value))
+			},
+			Exempt: func(f []Fact) bool { return lenZero(finfo, f) },
+		})
+		if len(r.Hits) == 0 && r.TargetSites > 0 {
+			fnGuards[fn] = true
+			c.Hold(rule, s.Name, "guard-function-false-implies-no-predicates", c.P.Pos(fn.Decl.Pos()), "the guard function "+fn.Key+" answers `false` only behind len(StaticPredicates) == 0")
+		}
+		return fnGuards[fn]
+	}
 	guarded := func(f []Fact) bool {
 		if lenZero(s.Info, f) {
 			return true
@@ -115,8 +148,10 @@ func rulePushdownGuarded(c *Ctx) {
 			if x.Tag != nil || x.Val {
 				continue
 			}
-			if cx, ok := unparen(x.Expr).(*ast.CallExpr); ok && guards[identObj(s.Info, cx.Fun)] {
-				return true
+			if cx, ok := unparen(x.Expr).(*ast.CallExpr); ok {
+				if guards[identObj(s.Info, cx.Fun)] || fnGuard(cx) {
+					return true
+				}
 			}
 		}
 		return false
